@@ -73,6 +73,55 @@ def r07_1(prog: Program, rep: Report):
     rep.check(root_visited, "R07.1", q, f.loc, "the root is recorded as visited before the walk starts", "the root type is not in `visited` initially: a self-referential root is expanded twice", detail="root-visited")
 
 
+def r07_6(prog: Program, rep: Report):
+    """The cut must cover every type that has members: a revisited type that is declared terminal ("cannot be cyclic")
+    yet has type arguments or field hints is pushed again and expanded forever."""
+    f, ps = c09.graph_paths(prog)
+    q = f.qualname
+    pe = C.PredEval(prog)
+    cut_paths = []
+    for p in ps:
+        for tm in p.all_terms():
+            if any(c09._is_typenode(s) and c09.node_args(s).get("cyclic") == ("const", True) for s in T.walk(tm)):
+                cut_paths.append(p)
+                break
+    if not cut_paths:
+        rep.undecided("R07.6", q, f.loc, "cut branch not found")
+        return
+    p = cut_paths[0]
+    conds = [
+        g
+        for g, pol in p.guards()
+        if pol and not T.contains(g, lambda s: s[0] == "set") and T.contains(g, lambda s: T.is_call_to(s, f"{C.INSP}.issubscriptedgeneric", f"{C.INSP}.isstdlibtype", f"{C.INSP}.isstdlibsubtype", f"{C.INSP}.isstructuredtype", f"{C.INSP}.isbuiltintype") and s[2] and T.is_call_to(s[2][0], f"{C.INSP}.unwrap"))
+    ]
+    if not conds:
+        rep.undecided("R07.6", q, f.loc, "no cyclic-capability condition on the cut branch")
+        return
+
+    def abstract(term):
+        return T.rewrite(term, lambda s: ("param", "U") if T.is_call_to(s, f"{C.INSP}.unwrap") else None)
+
+    with_members = [a for a in C.catalogue() if a.subscripted or a.flags]
+    bad = []
+    decided = 0
+    for a in with_members:
+        verdicts = [pe.val(abstract(c), {"U": a}, 0) for c in conds]
+        if any(v is None or v == ("raises",) for v in verdicts):
+            if any(v is not None and v != ("raises",) and not pe.truthy(v) for v in verdicts):
+                bad.append(a.label())
+            continue
+        decided += 1
+        if not all(pe.truthy(v) for v in verdicts):
+            bad.append(a.label())
+    rep.check(
+        not bad, "R07.6", q, f.loc,
+        f"every catalogue type with members (generic arguments or field hints) is cyclic-capable for the cut ({decided} decided)",
+        f"revisits of {bad[:4]} are treated as terminal although such types have members: a recursive NamedTuple / TypedDict is expanded again on every revisit (the walk does not terminate or the sorter reports a cycle)",
+        detail="cut-covers-members",
+    )  # fmt: skip
+    rep.count("cut_condition_evaluations", len(with_members))
+
+
 def r07_2_4(prog: Program, rep: Report):
     for d in ("marshal", "unmarshal"):
         rows = C.handlers(prog, d)
@@ -127,8 +176,10 @@ def run(prog: Program, rep: Report, tier: str):
     rep.rule("R07.2", "forward references dispatch to the lazy proxy first", floor=2)
     rep.rule("R07.3", "no build-time path into the memoised factories", floor=14)
     rep.rule("R07.4", "the proxy resolves lazily through the same-direction factory and delegates", floor=6)
+    rep.rule("R07.6", "the cut's cyclic-capability condition covers every type with members", floor=1)
     rep.rule("R07.5", "every level is converted (no raw member in composite outputs, both directions)", floor=9)
     r07_1(prog, rep)
+    r07_6(prog, rep)
     r07_2_4(prog, rep)
     r07_3(prog, rep)
     c03.r03_1(prog, rep, direction="unmarshal", rule="R07.5")
